@@ -382,6 +382,11 @@ compGLoopEval(FILE * fin, FILE * fout, EmitInfo finfo)
                       continue;
                 
                ab = (AbSyn) fintWrap(ab, intStepNo);
+               if (comsgErrorCount() != 0) {
+                      /* the wrapping for the value echo did not type check */
+                      scoSetUndoState();
+                      continue;
+               }
                foam = compFileMiddle(finfo, stab, ab);
 
                if (!foam)   continue;
